@@ -478,6 +478,28 @@ def run_net(ctx, scs, tag="net"):
     return summ, read_lines(ctx.path("%s.ndjson" % tag))
 
 
+def burst_part(ctx):
+    """manager level: close reports of several connections (1-2 per peer, 3 peers) queued in the real TransportManager's
+    channel before it is polled again; per-peer ledgers of the same monitor (seeded C07g: a drain loop that keeps only the
+    first report's event)"""
+    n = 400 if ctx.quick() else 6000
+    summ, _ = harness(ctx, "connmgr", ["--closeburst", n, "--seed", ctx.seed, "--out", ctx.path("burst.ndjson")], timeout=900)
+    lines = read_lines(ctx.path("burst.ndjson"))
+    nseg, nev, rejects = validate_all(ctx, "ConnLifeNetTrace.tla", "ConnLifeNetTrace.cfg", lines, tag="mb")
+    viol = []
+    for r in rejects:
+        seg, idx = r
+        if r.reason == "unconsumed":
+            raise ToolError("burst trace line could not be consumed: %s" % seg[idx - 1][:300])
+        sig = "%s@close-burst" % r.reason.replace(" ", "-").replace(":", "")
+        viol.append({"sig": sig, "what": "%s (real TransportManager, %s) at %s" % (r.reason, json.loads(seg[0]).get("sc"), seg[idx - 1][:300]),
+                     "replay_obj": {"property": "C07", "level": "manager-burst", "reason": r.reason, "signature": sig,
+                                    "segment": [json.loads(x) for x in seg]}})
+    bursts = [len(json.loads(x)["cids"]) for x in lines if '"e":"burst"' in x]
+    return {"executions_validated": nseg, "events_validated": nev, "bursts": len(bursts), "reports_per_burst_max": max(bursts or [0]),
+            "closed_events": sum(1 for x in lines if '"e":"app_closed"' in x)}, viol
+
+
 def check(ctx):
     mc = mc_runs(ctx)
     gen, gstats = generate(ctx, 40 if ctx.quick() else 400)
@@ -514,6 +536,12 @@ def check(ctx):
     ucov["generation"] = ustats
     violations += uviol
     cov["unit_level"] = ucov
+    cargo_build(ctx, ["connmgr"])
+    bcov, bviol = burst_part(ctx)
+    violations += bviol
+    cov["manager_close_bursts"] = bcov
+    cov["traces_validated_against_impl"] += bcov["executions_validated"]
+    cov["events_validated"] += bcov["events_validated"]
     cov["traces_validated_against_impl"] += ucov["executions_validated"]
     cov["events_validated"] += ucov["events_validated"]
     cov["by_transport"]["unit(tcp connection task)"] = {"executions_validated": ucov["executions_validated"], "events_validated": ucov["events_validated"]}
